@@ -13,7 +13,7 @@ RULE = ("seeded programs on one Pipe (throughput 1/2, 1, 2, 3 or inf) or Unbound
         "activity at a dyadic time; later transfers act as probes. Non-trivial = at least two "
         "transfers overlapped in time with total demand above the throughput, or a transfer was "
         "torn down; distinct = distinct (pipe, transfer parameters, start and end times).")
-BUDGET = {"quick": {"cases": 120000, "wall_s": 100, "chunk": 200},
+BUDGET = {"quick": {"cases": 120000, "wall_s": 240, "chunk": 200},
           "thorough": {"cases": 1000000, "wall_s": 1500, "chunk": 500}}
 ASSUMPTIONS = ["observed start and departure times are fed to the model as exact rationals; "
                "completion times may differ from the model by 1e-9 relative (float rounding of "
